@@ -1,6 +1,6 @@
 (* Harness.v: dispatch from a decoded case (function name, arguments) to the model.
    Part of the correspondence harness. *)
-From CCT Require Import Prelude Hex Num Time Formats Json JsonParse Auth Signing Construct Sha256 Wire Keys Gpg Cli.
+From CCT Require Import Prelude Hex Num Time Formats Json JsonParse Auth Signing Construct Sha256 Wire Keys Gpg Cli Ed25519.
 Open Scope N_scope.
 
 Definition unit_res (r : res unit) : res pv := x <- r ;; Ok VNone.
@@ -102,7 +102,7 @@ Section Run.
                      if ustr_eqb op (U"write") then (f <- canonserialize mem ;; go r mem (Some f) outs)
                      else if ustr_eqb op (U"load") then
                        match file with
-                       | Some f => match load_bytes f with Some v => go r v file outs | None => Err JSONDecodeError end
+                       | Some f => v <- load_file f ;; go r v file outs
                        | None => Err OSErr
                        end
                      else if ustr_eqb op (U"replace") then
@@ -174,6 +174,18 @@ Section Run.
               end
           | _, _ => Unmodelled
           end
+        else if is (U"cli_verify_metadata_files") then
+          (* the two files as raw bytes ([] = no such file): loading is part of the model *)
+          let o (v : pv) : option (option bytes) := match v with VList [] => Some None | VList [VBytes x] => Some (Some x) | _ => None end in
+          match o a, o b with
+          | Some t, Some u =>
+              match cli_verify_metadata_files ed_verify sha t u with
+              | Exit c s => Ok (VList [VInt c; VBool s])
+              | Crash => Ok (VStr (U"crash"))
+              | CliUnmodelled => Unmodelled
+              end
+          | _, _ => Unmodelled
+          end
         else if is (U"cli_sign_artifacts") then
           let o (v : pv) : option (option pv) := match v with VList [] => Some None | VList [x] => Some (Some x) | _ => None end in
           match o a, o b with
@@ -191,6 +203,10 @@ Section Run.
           | _, _ => Unmodelled
           end
         else if is (U"pub_of_seed") then match a with VBytes sd => Ok (VBytes (ed_pub sd)) | _ => Unmodelled end
+        (* the Gallina RFC 8032 specification itself (no oracle table) *)
+        else if is (U"rfc8032_pub") then match a with VBytes sd => Ok (VBytes (Ed25519.public_key sd)) | _ => Unmodelled end
+        else if is (U"rfc8032_sign") then match a, b with VBytes sd, VBytes m => Ok (VBytes (Ed25519.sign sd m)) | _, _ => Unmodelled end
+        else if is (U"sha512") then match a with VBytes m => Ok (VBytes (Ed25519.sha512 m)) | _ => Unmodelled end
         else Unmodelled
     | [a; VList seeds1; c; VList seeds2] =>
         (* wrap, sign by seeds1, replace the payload (an edit after signing), sign by seeds2 *)
@@ -211,6 +227,7 @@ Section Run.
         else if is (U"verify_delegation") then unit_res (verify_delegation ed_verify sha a (VList seeds1) c (VList seeds2))
         else Unmodelled
     | [a; b; c] =>
+        if is (U"rfc8032_verify") then match a, b, c with VBytes pk, VBytes m, VBytes sg => Ok (VBool (Ed25519.verify pk m sg)) | _, _, _ => Unmodelled end else
         if is (U"key_is_equivalent_to") then
           match cls_of a with Some k => (r <- key_is_equivalent_to k b c ;; Ok (VBool r)) | None => Unmodelled end
         else if is (U"verify_signature") then unit_res (verify_signature ed_verify a b c)
